@@ -118,3 +118,85 @@ func SV_C08_validator_memory() {
 	sv.Observe("updates", len(a.updates))
 	sv.Cover(len(a.updates) > 0, "some-update")
 }
+
+// c08DriveSwap: three validators, two places; the last-commit set of block 5
+// has the size of block 4's with one member replaced.
+func c08DriveSwap(restart bool) c08Run {
+	e := c10NewEnv(3, 1, 2)
+	now := time.Unix(1600000000, 0).UTC()
+	power := []int64{sv.Int64("power0"), sv.Int64("power1"), sv.Int64("power2")}
+	sv.Assume(power[0] > power[2] && power[2] > power[1] && power[1] >= 1 && power[0] < 1<<40)
+	for i, c := range e.cands {
+		v := NewValidator(c.addr, c.addr, c.pub, c.pub, *balance.NewAmount(power[i]), fmt.Sprint("n", i))
+		v.Power = power[i]
+		if err := e.vs.Set(*v); err != nil {
+			sv.Unreachable("validator record")
+		}
+	}
+	// validator 1 (outranked by validator 2) was purged at an earlier height or never
+	if p := []int64{0, 1, 2, 3}[sv.Choice("purged1", 4)]; p > 0 {
+		if err := e.vs.SetLastPurgeHeight(e.cands[1].addr, p); err != nil {
+			sv.Unreachable("purge height")
+		}
+	}
+	e.st.Commit()
+	e.st.Commit()
+	e.st.Commit() // version 3
+	vote := func(i int) abci.VoteInfo {
+		return abci.VoteInfo{Validator: abci.Validator{Address: e.cands[i].addr, Power: power[i]}, SignedLastBlock: true}
+	}
+	votes4 := []abci.VoteInfo{vote(0), vote(1)}
+	votes5 := [][]abci.VoteInfo{votes4, {vote(0), vote(2)}, {vote(2), vote(1)}}[sv.Choice("votes5", 3)]
+
+	vs, vctx := e.vs, e.vctx
+	var out c08Run
+	for b, h := range []int64{4, 5} {
+		if b == 1 && restart {
+			vs = NewValidatorStore("v", "purged", e.st)
+			vctx = NewValidatorContext(vctx.Balances, vctx.FeePool, vctx.Delegators, vctx.EvidenceStore, vctx.Govern, vctx.Currencies, vs)
+		}
+		votes := votes4
+		if b == 1 {
+			votes = votes5
+		}
+		t := now.Add(time.Duration(h) * time.Minute)
+		req := abci.RequestBeginBlock{Header: abci.Header{Height: h, Time: t}, LastCommitInfo: abci.LastCommitInfo{Votes: votes}}
+		if err := vs.Setup(req, nil); err != nil {
+			sv.Unreachable("setup")
+		}
+		vs.CheckMaliciousValidators(vctx.EvidenceStore, vctx.Govern)
+		ups := vs.GetEndBlockUpdate(vctx, abci.RequestEndBlock{Height: h})
+		if b == 1 {
+			out.updates = ups
+			for _, c := range e.cands {
+				p, _ := vs.GetLastPurgeHeight(c.addr)
+				out.status = append(out.status, fmt.Sprint("purged@", p))
+			}
+		}
+		e.st.Commit()
+	}
+	return out
+}
+
+// SV_C08_validator_memory_swap: the last-commit cache after a same-size
+// change of the validator set.
+//
+// sv:bounds 3 validators (any powers with p0 > p2 > p1 >= 1; two places, so validator 1 is outranked), validator 1 purged at height 1, 2, 3 or never; last commit of block 4 = {0, 1}; last commit of block 5 = the same, {0, 2} or {2, 1} (Tendermint applies a change two blocks later); replica 1 keeps one ValidatorStore object for both blocks, replica 2 re-creates it before block 5
+// sv:outside as SV_C08_validator_memory
+// sv:goal both replicas return the same validator updates at block 5 and leave the same last-purge heights
+func SV_C08_validator_memory_swap() {
+	sv.NominalSizes(64)
+	a := c08DriveSwap(false)
+	b := c08DriveSwap(true)
+	sv.Assert(len(a.updates) == len(b.updates), "restart-does-not-change-the-validator-updates")
+	if len(a.updates) == len(b.updates) {
+		for i := range a.updates {
+			sv.Assert(string(a.updates[i].PubKey.Data) == string(b.updates[i].PubKey.Data) && a.updates[i].Power == b.updates[i].Power, "restart-does-not-change-the-validator-updates")
+		}
+	}
+	for i := range a.status {
+		sv.Assert(a.status[i] == b.status[i], "restart-does-not-change-the-purge-records")
+	}
+	sv.Observe("updates", len(a.updates))
+	sv.Cover(len(a.updates) > 0, "some-update")
+}
